@@ -480,5 +480,5 @@ def subchecks(tier):
             desc="every k-th forward / reference / backward crash point of the 17 other model-taking API calls (func = predict and deep_lift_shap)"),
         Sub("history_pairs", run_history, enum=pair_enum, exhaustive=True, shards_quick=4, shards_thorough=16, budget_quick=200.0,
             desc="ordered pairs (failing step, any step) [+ (any, failing) in thorough] over the alphabet of fault-free calls, invalid calls and first/middle/last crash points"),
-        Sub("histories", run_history, strategy=history_strategy, n_quick=60, n_thorough=4000, shards_quick=2, shards_thorough=16),
+        Sub("histories", run_history, strategy=history_strategy, n_quick=60, n_thorough=12000, shards_quick=2, shards_thorough=16),
     ]
